@@ -1,5 +1,7 @@
 from simkit import runner as _R
 from . import cache_sim as _cache
+from . import registry_sim as _registry
 
 _R.register("cache", _cache)
-ENGINE_OF = {"C19": "cache"}
+_R.register("registry", _registry)
+ENGINE_OF = {"C19": "cache", "C18": "registry"}
